@@ -1,4 +1,5 @@
 import TartModel.Proofs.TTreeLemmas
+import TartModel.Proofs.AgreeLemmas
 /-
   C08 — results do not depend on resolver scheduling or concurrency settings.
   Theorems over the task-tree semantics (Impl/TTree.lean) for EVERY tree, EVERY pure answer
@@ -53,6 +54,27 @@ theorem completes_only_awaited (ans : Answers) (g : Gate) (s s' : TTree × List 
 theorem sequential_equals_concurrent (ans : Answers) (ts : List TTree) (k : List Out → TTree) :
     denote ans (seqList ts k) = denote ans (.gather ts k) :=
   denote_seqList ans ts k
+
+/-- THE BRIDGE between the two executor models: for every request job, the task tree `runT` builds
+    denotes exactly what the direct executor `run` (the model the C01–C05 theorems are about)
+    computes — same value, and the errors the tree emits are the errors `run` appends. -/
+theorem tree_denotes_direct_result (fuel : Nat) (ctx : Ctx) (job : Job) (st : St) :
+    (run fuel ctx job st).1 = (denote (answersOf ctx.env) (runT fuel ctx job)).1 ∧
+    (run fuel ctx job st).2.errors = st.errors ++ (denote (answersOf ctx.env) (runT fuel ctx job)).2 :=
+  run_agrees fuel ctx job st
+
+/-- Hence: under EVERY schedule of the asynchronous executor (any interleaving, any concurrency
+    flags — they only change the tree's shape between `gather` and `seqList`), a request that
+    finishes returns the value the direct executor computes, with a permutation of its errors:
+    every theorem proved about `run` (C01: result shape and order, C02: error containment,
+    C03: conformance) holds of every scheduled execution. -/
+theorem any_schedule_gives_direct_result (fuel : Nat) (ctx : Ctx) (job : Job) (r : Out) (log : List GErr)
+    (h : Steps (answersOf ctx.env) (runT fuel ctx job, []) (.done r, log)) :
+    r = (run fuel ctx job {}).1 ∧ log.Perm (run fuel ctx job {}).2.errors := by
+  obtain ⟨h1, h2⟩ := schedule_independent (answersOf ctx.env) (runT fuel ctx job) r log h
+  obtain ⟨a1, a2⟩ := run_agrees fuel ctx job {}
+  refine ⟨by rw [h1, a1], ?_⟩
+  rw [a2]; simpa using h2
 
 /-- non-vacuity: two awaited resolvers, two schedules, one result -/
 def g1 : Gate := { coord := "Q.a", path := [.key "a"] }
